@@ -114,6 +114,10 @@ static const scenario_t scenarios[] = {
 	{ "fail-mid", { "C64 C64", "C64 F64 C64 C64", "C10", NULL } },
 	{ "fail-last", { "C64 C64", "C20", "C64 C64 F64", NULL } },
 	{ "fail-frag", { "F10", "C20", "C30", "C30", "C64 C5", NULL } },
+	/* the failing compressor call is the one for the last fragment block, which finish() itself submits */
+	{ "fail-final-frag", { "C64", "F10", "C20", NULL } },
+	{ "fail-final-frag-only", { "F7", NULL } },
+	{ "fail-last-block-then-frag", { "C64 F64 C3", NULL } },
 	{ "many", { "C64 I64 C64 I64 C64 I64 C1", "I64 I64 I64", "C64", "C5", "I6", "C64 C64 Z64 C64", NULL } },
 };
 #define NSCEN (sizeof(scenarios) / sizeof(scenarios[0]))
